@@ -784,6 +784,11 @@ class JinjaInterp:
             tv = self.ev(n.template, env)
             names = self.const_strings(tv)
             if not names:
+                # `"dir/" + X.template` where the interpreter lost track of what X is (a value that travelled through a call block,
+                # a namespace list, ...): X.template is the `template` class variable of some property kind - every kind's template
+                # under that directory is a candidate (what narrows the candidates elsewhere - the classes X can be - is unknown here)
+                names = self._kind_templates_under(n.template)
+            if not names:
                 raise AnalysisError(f"{ti.name}:{n.lineno}: import of a template whose name cannot be enumerated")
             missing = [x for x in names if x not in self.jx.templates]
             if missing:
@@ -1035,6 +1040,14 @@ class JinjaInterp:
         keep = frozenset(t for t in env[var].types if self._template_of_class(t) in tnames)
         if keep:
             env[var] = replace(env[var], types=keep)
+
+    def _kind_templates_under(self, e: nodes.Node) -> list[str]:
+        parts = [e.left, e.right] if isinstance(e, nodes.Add) else list(e.nodes) if isinstance(e, nodes.Concat) else []
+        if len(parts) != 2 or not (isinstance(parts[0], nodes.Const) and isinstance(parts[0].value, str)) or \
+                not (isinstance(parts[1], nodes.Getattr) and parts[1].attr == "template"):
+            return []
+        kinds = {self._template_of_class(c.qual) for c in self.ix.property_classes()} - {None}
+        return sorted(parts[0].value + k for k in kinds if parts[0].value + k in self.jx.templates)
 
     def _template_of_class(self, qual: str) -> str | None:
         c = self.ix.classes.get(qual)
